@@ -876,100 +876,120 @@ for f in fobjs:
         emit('}')
     body_out.append('\n'.join(out))
 
-hdr = ['/* generated by vp/ll2c.py -- do not edit */', '#include <stdint.h>', '#include <stddef.h>', '#include <string.h>', '#include <stdlib.h>',
-       '#include "vp_harness.h"', 'static int vp_drain;', 'static inline _Bool __yield(void){ if(vp_drain) return 0; return IN_BOOL(); }']
-# struct forward decls
-for n in named: hdr.append('struct S_%s;' % cname(n))
-# global decl texts (may create lits)
-gtxt = []
-for n, rest in globs:
-    r = strip_attrs(rest)
-    r = re.sub(r'^(global|constant)\s+', '', re.sub(r'^(thread_local\s+)?', '', r))
-    try:
-        t, p = tokenize_type(r, 0)
-        if r[p:].strip() == '' or re.match(r'^\s*,', r[p:]): init = None
+def render():
+    buf = []
+    def P(x=""): buf.append(x)
+    global emitted, sdefs, lit_done, changed
+    hdr = ['/* generated by vp/ll2c.py -- do not edit */', '#include <stdint.h>', '#include <stddef.h>', '#include <string.h>', '#include <stdlib.h>',
+           '#include "vp_harness.h"', 'static int vp_drain;', 'static inline _Bool __yield(void){ if(vp_drain) return 0; return IN_BOOL(); }']
+    # struct forward decls
+    for n in named: hdr.append('struct S_%s;' % cname(n))
+    # global decl texts (may create lits)
+    gtxt = []
+    for n, rest in globs:
+        r = strip_attrs(rest)
+        r = re.sub(r'^(global|constant)\s+', '', re.sub(r'^(thread_local\s+)?', '', r))
+        try:
+            t, p = tokenize_type(r, 0)
+            if r[p:].strip() == '' or re.match(r'^\s*,', r[p:]): init = None
+            else:
+                dummy = Fn('define void @__dummy()', [])
+                init, _ = parse_init(r, p, t, dummy)
+            if t.k == 'arr': ctype(t)          # register the wrapper struct before struct emission
+            gtxt.append((n, t, 'EXTERNAL' if re.match(r'^\s*external\b', rest) or ' external ' in (' ' + rest.split('global')[0].split('constant')[0]) else init))
+        except Exception as e:
+            gtxt.append((n, None, 'ERR ' + str(e)))
+    # order struct definitions: emit named structs (by-value dependencies need order: do simple DFS)
+    emitted = set(); sdefs = []
+    def emit_struct_named(n):
+        if n in emitted or named.get(n) is None: return
+        emitted.add(n)
+        for ft in named[n]: dep(ft)
+        sdefs.append('struct S_%s { %s }%s;' % (cname(n), ' '.join(field_decl(ft, 'f%d' % k) + ';' for k, ft in enumerate(named[n])) or 'char __empty;', ' __attribute__((packed))' if named_packed.get(n) else ''))
+    def dep(t):
+        if t.k == 'struct': emit_struct_named(t.name)
+        elif t.k == 'arr': dep(t.elem)
+        elif t.k == 'lit':
+            for ft in t.fields: dep(ft)
+            emit_lit(t)
+    def emit_lit(t):
+        key = tkey(t); nm = ctype(t)
+        if ('L', key) in emitted: return
+        emitted.add(('L', key))
+        sdefs.append('%s { %s };' % (nm, ' '.join(field_decl(ft, 'f%d' % k) + ';' for k, ft in enumerate(t.fields))))
+    for n in list(named): emit_struct_named(n)
+    # literal/array wrapper structs & fn typedefs discovered during translation
+    changed = True
+    lit_done = set()
+    while changed:
+        changed = False
+        for key, (nm, t) in list(lits.items()):
+            if key in lit_done: continue
+            lit_done.add(key); changed = True
+            for ft in t.fields: dep(ft)
+            if ('L', tkey(t)) not in emitted or getattr(t, 'isarr', False):
+                sdefs.append('%s { %s };' % (nm, ' '.join(field_decl(ft, 'f%d' % k) + ';' for k, ft in enumerate(t.fields))))
+                emitted.add(('L', tkey(t)))
+    fdefs = []
+    _fdone = set()
+    def _emit_fnty(key):
+        if key in _fdone: return
+        _fdone.add(key)
+        nm, t = fntys[key]
+        parts = [ctype(t.ret)] + [ctype(a) for a in t.args]          # may register further function types
+        for sub in [t.ret] + list(t.args):                           # typedefs used by this one come first
+            if sub.k == 'ptr' and sub.to.k == 'fn': _emit_fnty(tkey(sub.to))
+        fdefs.append('typedef %s (*%s)(%s);' % (parts[0], nm, ', '.join(parts[1:] + (['...'] if t.va else [])) or 'void'))
+    while True:
+        _pending = [k for k in list(fntys) if k not in _fdone]
+        if not _pending: break
+        for key in _pending: _emit_fnty(key)
+    P('\n'.join(hdr))
+    P('\n'.join(x for x in sdefs if False))
+    # fn typedefs may reference structs by pointer only: put after forward decls
+    P('\n'.join(fdefs))
+    P('\n'.join(sdefs))
+    for n, (rt, ats, va) in externs.items():
+        P('extern %s %s(%s);' % (ctype(rt), cname(n), ', '.join([ctype(a) for a in ats] + (['...'] if va else [])) or 'void'))
+    for f in fobjs:
+        if not f.is_thread:
+            P('%s %s(%s);' % (ctype(f.rt), cname(f.name), ', '.join([ctype(t) for t, _ in f.params] + (['...'] if f.va else [])) or 'void'))
+    for n, t, init in gtxt:      # forward declarations (initializers may reference later globals)
+        if t is None: continue
+        P('extern %s;' % (('%s G_%s' % (ctype(t), cname(n))) if t.k == 'arr' else field_decl(t, 'G_' + cname(n))))
+    for n, t, init in gtxt:
+        if t is None: P('/* global %s: %s */' % (n, init)); continue
+        if init == 'EXTERNAL': continue
+        if t.k == 'arr':
+            P('%s G_%s%s;' % (ctype(t), cname(n), (' = { ' + init + ' }') if init and init != 'ZEROINIT' else ''))
         else:
-            dummy = Fn('define void @__dummy()', [])
-            init, _ = parse_init(r, p, t, dummy)
-        if t.k == 'arr': ctype(t)          # register the wrapper struct before struct emission
-        gtxt.append((n, t, 'EXTERNAL' if re.match(r'^\s*external\b', rest) or ' external ' in (' ' + rest.split('global')[0].split('constant')[0]) else init))
-    except Exception as e:
-        gtxt.append((n, None, 'ERR ' + str(e)))
-# order struct definitions: emit named structs (by-value dependencies need order: do simple DFS)
-emitted = set(); sdefs = []
-def emit_struct_named(n):
-    if n in emitted or named.get(n) is None: return
-    emitted.add(n)
-    for ft in named[n]: dep(ft)
-    sdefs.append('struct S_%s { %s }%s;' % (cname(n), ' '.join(field_decl(ft, 'f%d' % k) + ';' for k, ft in enumerate(named[n])) or 'char __empty;', ' __attribute__((packed))' if named_packed.get(n) else ''))
-def dep(t):
-    if t.k == 'struct': emit_struct_named(t.name)
-    elif t.k == 'arr': dep(t.elem)
-    elif t.k == 'lit':
-        for ft in t.fields: dep(ft)
-        emit_lit(t)
-def emit_lit(t):
-    key = tkey(t); nm = ctype(t)
-    if ('L', key) in emitted: return
-    emitted.add(('L', key))
-    sdefs.append('%s { %s };' % (nm, ' '.join(field_decl(ft, 'f%d' % k) + ';' for k, ft in enumerate(t.fields))))
-for n in list(named): emit_struct_named(n)
-# literal/array wrapper structs & fn typedefs discovered during translation
-changed = True
-lit_done = set()
-while changed:
-    changed = False
-    for key, (nm, t) in list(lits.items()):
-        if key in lit_done: continue
-        lit_done.add(key); changed = True
-        for ft in t.fields: dep(ft)
-        if ('L', tkey(t)) not in emitted or getattr(t, 'isarr', False):
-            sdefs.append('%s { %s };' % (nm, ' '.join(field_decl(ft, 'f%d' % k) + ';' for k, ft in enumerate(t.fields))))
-            emitted.add(('L', tkey(t)))
-fdefs = []
-for key, (nm, t) in fntys.items():
-    fdefs.append('typedef %s (*%s)(%s);' % (ctype(t.ret), nm, ', '.join([ctype(a) for a in t.args] + (['...'] if t.va else [])) or 'void'))
-print('\n'.join(hdr))
-print('\n'.join(x for x in sdefs if False))
-# fn typedefs may reference structs by pointer only: put after forward decls
-print('\n'.join(fdefs))
-print('\n'.join(sdefs))
-for n, (rt, ats, va) in externs.items():
-    print('extern %s %s(%s);' % (ctype(rt), cname(n), ', '.join([ctype(a) for a in ats] + (['...'] if va else [])) or 'void'))
-for f in fobjs:
-    if not f.is_thread:
-        print('%s %s(%s);' % (ctype(f.rt), cname(f.name), ', '.join([ctype(t) for t, _ in f.params] + (['...'] if f.va else [])) or 'void'))
-for n, t, init in gtxt:      # forward declarations (initializers may reference later globals)
-    if t is None: continue
-    print('extern %s;' % (('%s G_%s' % (ctype(t), cname(n))) if t.k == 'arr' else field_decl(t, 'G_' + cname(n))))
-for n, t, init in gtxt:
-    if t is None: print('/* global %s: %s */' % (n, init)); continue
-    if init == 'EXTERNAL': continue
-    if t.k == 'arr':
-        print('%s G_%s%s;' % (ctype(t), cname(n), (' = { ' + init + ' }') if init and init != 'ZEROINIT' else ''))
-    else:
-        print('%s%s;' % (field_decl(t, 'G_' + cname(n)), (' = ' + init) if init and init != 'ZEROINIT' else ''))
-print('\n\n'.join(body_out))
+            P('%s%s;' % (field_decl(t, 'G_' + cname(n)), (' = ' + init) if init and init != 'ZEROINIT' else ''))
+    P('\n\n'.join(body_out))
 
-# ---------------------------------------------------------------- scheduler main
-tn = [cname(t) for t in threads]
-print()
-print('int main(void) {')
-print('  %s();' % cname(_args.setup))
-print('  for(int vp_round = 0; vp_round < %d; vp_round++) {' % _args.rounds)
-for t in tn:
-    print('    if(T_%s_pc != -1) { T_%s_w = 1; %s(); }' % (t, t, t))
-print('  }')
-if _args.drain:
-    print('  vp_drain = 1;')
-    print('  for(int vp_pass = 0; vp_pass < %d; vp_pass++) {' % len(tn))
+    # ---------------------------------------------------------------- scheduler main
+    tn = [cname(t) for t in threads]
+    P()
+    P('int main(void) {')
+    P('  %s();' % cname(_args.setup))
+    P('  for(int vp_round = 0; vp_round < %d; vp_round++) {' % _args.rounds)
     for t in tn:
-        print('    if(T_%s_pc != -1) { T_%s_w = 1; T_%s_blocked = 0; %s(); }' % (t, t, t, t))
-    print('  }')
-    print('  VASSERTM(%s, "progress: once the symbolic schedule ends, running the threads in turn completes all of them (no deadlock, no lost wake-up)");' % ' && '.join('T_%s_pc == -1' % t for t in tn))
-    print('  VASSUME(%s);' % ' && '.join('T_%s_pc == -1' % t for t in tn))
-else:
-    print('  VASSUME(%s);' % ' && '.join('T_%s_pc == -1' % t for t in tn))
-print('  %s();' % cname(_args.check))
-print('  return 0;')
-print('}')
+        P('    if(T_%s_pc != -1) { T_%s_w = 1; %s(); }' % (t, t, t))
+    P('  }')
+    if _args.drain:
+        P('  vp_drain = 1;')
+        P('  for(int vp_pass = 0; vp_pass < %d; vp_pass++) {' % len(tn))
+        for t in tn:
+            P('    if(T_%s_pc != -1) { T_%s_w = 1; T_%s_blocked = 0; %s(); }' % (t, t, t, t))
+        P('  }')
+        P('  VASSERTM(%s, "progress: once the symbolic schedule ends, running the threads in turn completes all of them (no deadlock, no lost wake-up)");' % ' && '.join('T_%s_pc == -1' % t for t in tn))
+        P('  VASSUME(%s);' % ' && '.join('T_%s_pc == -1' % t for t in tn))
+    else:
+        P('  VASSUME(%s);' % ' && '.join('T_%s_pc == -1' % t for t in tn))
+    P('  %s();' % cname(_args.check))
+    P('  return 0;')
+    P('}')
+
+    return "\n".join(buf)
+
+render()          # first pass registers every wrapper struct / function type used anywhere
+sys.stdout.write(render() + "\n")
